@@ -485,6 +485,17 @@ func (t SnipT) shrinks() []SnipT {
 		n.S = s
 		out = append(out, n)
 	}
+	// … by two runes at once (`%%`, `@a`: dropping one of them changes what the format means), and down to its first rune
+	if rs := []rune(t.S); (t.K == "tmpl" || t.K == "sprintf") && len(rs) > 1 {
+		for i := 0; i+1 < len(rs); i++ {
+			n := t
+			n.S = string(rs[:i]) + string(rs[i+2:])
+			out = append(out, n)
+		}
+		n := t
+		n.S = string(rs[:1])
+		out = append(out, n)
+	}
 	for i := range t.Strs {
 		n := t
 		n.Strs = append(append([]string{}, t.Strs[:i]...), t.Strs[i+1:]...)
